@@ -1767,7 +1767,7 @@ def run(ctx):
             pre, fc = found[key]
             script = HSEP.join([by_key[k].decode("utf-8", "replace") for k in pre] + [text])
             for ck, det in fc:
-                if ck.startswith("probe:") and any(redefines_probe_name(by_key[k].decode("utf-8", "replace")) for k in pre):
+                if ck.startswith("probe:") and (redefines_probe_name(text) or any(redefines_probe_name(by_key[k].decode("utf-8", "replace")) for k in pre)):
                     excused += 1
                     continue
                 classes.add(ck, script, det + "  [history of %d evaluations on one engine]" % (len(pre) + 1), src)
@@ -1775,7 +1775,7 @@ def run(ctx):
             for ck, det in failure_classes(r):
                 if ck.startswith("hang:"):
                     continue
-                if ck.startswith("probe:") and any(redefines_probe_name(by_key[k].decode("utf-8", "replace")) for k in r.get("epoch", []) if k in by_key):
+                if ck.startswith("probe:") and (redefines_probe_name(text) or any(redefines_probe_name(by_key[k].decode("utf-8", "replace")) for k in r.get("epoch", []) if k in by_key)):
                     excused += 1
                     continue
                 classes.add("not-reproduced:" + ck, text, det + "  [seen once in a history of evaluations; neither the text alone nor its history reproduces it]", src)
